@@ -51,7 +51,7 @@ def run_unit(unit_dir: str, repo_root: str = '/repo', tier: str = 'quick', keep:
         t1 = time.time()
         r = subprocess.run([exe] + args, capture_output=True, text=True, timeout=cfg.get('timeout_s', 1800))
         res['solver_time_s'] = round(time.time() - t1, 2)
-        line = next((l for l in r.stdout.split('\n') if l.startswith('{')), None)
+        line = next((l[l.index('{"bound"'):] for l in r.stdout.split('\n') if '{"bound"' in l), None)
         if line is None:
             if r.returncode != 0:
                 # a panic of the real code during the enumeration is itself a failure
